@@ -582,11 +582,18 @@ def _run(case, mode, wlog):
                     raise v
             if prev is not None and prev["key"] == key and prev["bar"] is not None and prev["p"] is not None:
                 if (p > prev["p"] and top_h < prev["bar"][0]) or (p < prev["p"] and top_h > prev["bar"][0]):
-                    raise Violation(
+                    v = Violation(
                         "thumb-monotone",
                         f"after {op}: position {prev['p']} -> {p} but thumb top {prev['bar'][0]} -> {top_h} "
                         f"(bars {prev['bar']} -> {bar_parts}; {len(F)} rows, view {rows})",
                     )
+                    if w.lb is not None and rows * 3 < len(w.lb.body) and thumb_h != prev["bar"][1]:
+                        # candidate defect: in relative (item-granular) mode the thumb length follows the number of
+                        # items in view, which changes with the items' heights while scrolling.  Keep going.
+                        v.clause += ":relative-mode-thumb-resized"
+                        soft(v)
+                    else:
+                        raise v
 
         # ---- consumed events do not scroll ---------------------------------------------------
         if consumed and kind in ("key", "mouse") and prev is not None and p is not None and prev["p"] is not None:
@@ -801,6 +808,11 @@ KNOWN = {
     # ScrollBar relative mode (ListBox with more than 3*rows items) positions the thumb by item index only
     "C20-relative-scrollbar-first-item-partly-visible": lambda sub, case, v: sub == "hist"
     and v.clause == "thumb-top-iff-first-row:relative-mode-first-item-partly-visible"
+    and case["kind"] == "sb_listbox",
+    # relative mode again: the thumb length is the share of *items* in view, so with items of different heights it
+    # changes while scrolling and its top can move up although the position grew
+    "C20-relative-scrollbar-thumb-resizes": lambda sub, case, v: sub == "hist"
+    and v.clause == "thumb-monotone:relative-mode-thumb-resized"
     and case["kind"] == "sb_listbox",
     "C20-scrollbar-thumb-fills-bar-scrolled": lambda sub, case, v: sub == "hist"
     and v.clause == "bar-render-raises:WidgetError:thumb-fills-bar"
